@@ -6,6 +6,7 @@
 
 mod alloc;
 mod attack;
+mod control;
 mod edges;
 mod etf;
 mod frag;
@@ -30,6 +31,7 @@ fn main() {
         "id-twins" => etf::run_id_twins(rest),
         "attack-run" => attack::run(rest),
         "order-obs" => order::run(rest),
+        "control-obs" => control::run(rest),
         other => {
             eprintln!("unknown subcommand {other}");
             2
